@@ -955,7 +955,7 @@ def gen_prog(rng, salt):
                     cargs.append(["id", rng.choice(cand)])
             body.append(["g", cname, cargs])
             if rng.random() < 0.3:
-                body[-1] = rng.choice([["seq", [body[-1]]], ["loop", rng.choice([1, 2]), [body[-1]]]])
+                body[-1] = rng.choice([["par", [["seq", [body[-1]]]]], ["loop", rng.choice([1, 2]), [body[-1]]]])
             # the outer macro uses its own parameters AFTER the inner call
             body.append(native(inner_q, [pn["i"]] if "i" in pn else (), single=True))
         if any(p == "r" for p, _t in params) and "r" in json.dumps(body):
@@ -987,12 +987,12 @@ def gen_prog(rng, salt):
             kind = rng.choice(["seq", "seq", "par", "loop"])
             inner = [stmt(d + 1) for _ in range(rng.choice([1, 2, 2]))]
             if kind == "loop":
-                return ["loop", rng.choice([1, 2, 3]), inner]
+                return ["loop", rng.choice([1, 2, 3]), [s if s[0] != "seq" else ["par", [s]] for s in inner]]
             if kind == "par":
                 inner = [s if s[0] != "par" else ["seq", [s]] for s in inner]
                 g.tags.append(f"parallel at depth {d}")
             else:
-                inner = [s if s[0] != "seq" else ["par", [s]] if False else s for s in inner]
+                inner = [s if s[0] != "seq" else ["par", [s]] for s in inner]     # (no { } directly inside { })
             return [kind, inner]
         if specs and f < 0.6:
             return call_macro()
